@@ -80,7 +80,7 @@ PROPS = {
                 "action (implementation: registry weak references that still upgrade; model: aliveSet) and the lists must be EQUAL; the implementation also "
                 "reports its strong references and the live-node counter after the final drop; non-trivial = distinct history in which node functions ran",
                 nq=240),
-    "C16": spec(["IncrVerif.Props.C16"], [("perkey", 1.0)], ["api", "ev", "read", "snap"],
+    "C16": spec(["IncrVerif.Props.C16", "IncrVerif.Props.C16History"], [("perkey", 1.0)], ["api", "ev", "read", "snap"],
                 "profile perkey: incr_mapi_ / incr_mapi_cutoff on BTreeMap and OrdMap with six per-key families (pure function of value and key; ignores its "
                 "input; one shared pre-existing node; map2 with an outer variable; chain; bind on the value), all cutoff variants, edits of the input map "
                 "(insert/remove/change/empty/refill/equal), writes to the outer variable, observe/unobserve/re-observe, final drop of everything; "
